@@ -36,6 +36,8 @@ import (
 )
 
 type entry struct {
+	n       atomic.Int64 // adds so far: every add of this pool entry uses a fresh explicit id (never re-used)
+	cur     atomic.Pointer[string]
 	id      string
 	tor     *vh.Torrent
 	seedAdr string
@@ -255,13 +257,28 @@ type worker struct {
 
 func (w *worker) entry() *entry { return w.pool[w.rng.Intn(len(w.pool))] }
 
+// newID: explicit ids exercise the duplicate check under mTorrents.RLock; an id is never used twice, so the
+// add/remove-same-id races of C14 (a registered torrent without database record) stay out of this driver.
+func (e *entry) newID() string {
+	id := fmt.Sprintf("%s-%d", e.id, e.n.Add(1))
+	return id
+}
+
+// curID: id of the latest successful add of this pool entry ("" if none yet)
+func (e *entry) curID() string {
+	if p := e.cur.Load(); p != nil {
+		return *p
+	}
+	return e.id
+}
+
 func (w *worker) handle() *torrent.Torrent {
 	if len(w.kept) > 0 && w.rng.Intn(8) == 0 {
 		return w.kept[w.rng.Intn(len(w.kept))]
 	}
 	var t *torrent.Torrent
 	e := w.entry()
-	call(w.id, "Session.GetTorrent", func() error { t = w.s.GetTorrent(e.id); return nil })
+	call(w.id, "Session.GetTorrent", func() error { t = w.s.GetTorrent(e.curID()); return nil })
 	if t != nil {
 		if len(w.kept) < 4 {
 			w.kept = append(w.kept, t)
@@ -299,8 +316,10 @@ func ops(mix string) []op {
 		{"Session.AddTorrent", 4, func(w *worker) {
 			e := w.entry()
 			call(w.id, "Session.AddTorrent", func() error {
-				t, err := w.s.AddTorrent(bytes.NewReader(e.tor.Bytes), &torrent.AddTorrentOptions{ID: e.id, Stopped: w.rng.Intn(4) == 0})
+				id := e.newID()
+				t, err := w.s.AddTorrent(bytes.NewReader(e.tor.Bytes), &torrent.AddTorrentOptions{ID: id, Stopped: w.rng.Intn(4) == 0})
 				if err == nil {
+					e.cur.Store(&id)
 					_ = t.AddPeer(e.seedAdr)
 				}
 				return err
@@ -309,13 +328,17 @@ func ops(mix string) []op {
 		{"Session.AddURI", 2, func(w *worker) {
 			e := w.entry()
 			call(w.id, "Session.AddURI", func() error {
-				_, err := w.s.AddURI(e.magnet, &torrent.AddTorrentOptions{ID: e.id})
+				id := e.newID()
+				_, err := w.s.AddURI(e.magnet, &torrent.AddTorrentOptions{ID: id})
+				if err == nil {
+					e.cur.Store(&id)
+				}
 				return err
 			})
 		}},
 		{"Session.RemoveTorrent", 2, func(w *worker) {
 			e := w.entry()
-			call(w.id, "Session.RemoveTorrent", func() error { return w.s.RemoveTorrent(e.id, w.rng.Intn(2) == 0) })
+			call(w.id, "Session.RemoveTorrent", func() error { return w.s.RemoveTorrent(e.curID(), w.rng.Intn(2) == 0) })
 		}},
 		{"Torrent.Start", 5, onT("Torrent.Start", func(t *torrent.Torrent) error { return t.Start() })},
 		{"Torrent.Stop", 2, onT("Torrent.Stop", func(t *torrent.Torrent) error { return t.Stop() })},
@@ -343,15 +366,15 @@ func ops(mix string) []op {
 		op{"Torrent.AddPeer", 4, func(w *worker) {
 			e := w.entry()
 			var t *torrent.Torrent
-			call(w.id, "Session.GetTorrent", func() error { t = w.s.GetTorrent(e.id); return nil })
+			call(w.id, "Session.GetTorrent", func() error { t = w.s.GetTorrent(e.curID()); return nil })
 			if t != nil {
 				call(w.id, "Torrent.AddPeer", func() error { return t.AddPeer(e.seedAdr) })
 			}
 		}},
-		op{"Torrent.AddPeer/host", 4, func(w *worker) {
+		op{"Torrent.AddPeer/host", 2, func(w *worker) {
 			e := w.pool[0]
 			var t *torrent.Torrent
-			call(w.id, "Session.GetTorrent", func() error { t = w.s.GetTorrent(e.id); return nil })
+			call(w.id, "Session.GetTorrent", func() error { t = w.s.GetTorrent(e.curID()); return nil })
 			if t != nil {
 				_, port, _ := net.SplitHostPort(e.seedAdr)
 				call(w.id, "Torrent.AddPeer/host", func() error { return t.AddPeer("localhost:" + port) })
@@ -360,7 +383,7 @@ func ops(mix string) []op {
 		op{"Torrent.AddTracker", 1, func(w *worker) {
 			e := w.entry()
 			var t *torrent.Torrent
-			call(w.id, "Session.GetTorrent", func() error { t = w.s.GetTorrent(e.id); return nil })
+			call(w.id, "Session.GetTorrent", func() error { t = w.s.GetTorrent(e.curID()); return nil })
 			if t != nil {
 				call(w.id, "Torrent.AddTracker", func() error { return t.AddTracker(e.trk.URL()) })
 			}
@@ -376,31 +399,40 @@ func ops(mix string) []op {
 	o = append(o,
 		rp("rpc.ListTorrents", 2, func(w *worker, e *entry) error { _, err := w.rc.ListTorrents(); return err }),
 		rp("rpc.GetSessionStats", 2, func(w *worker, e *entry) error { _, err := w.rc.GetSessionStats(); return err }),
-		rp("rpc.GetTorrentStats", 3, func(w *worker, e *entry) error { _, err := w.rc.GetTorrentStats(e.id); return err }),
-		rp("rpc.GetTorrentPeers", 2, func(w *worker, e *entry) error { _, err := w.rc.GetTorrentPeers(e.id); return err }),
-		rp("rpc.GetTorrentTrackers", 2, func(w *worker, e *entry) error { _, err := w.rc.GetTorrentTrackers(e.id); return err }),
-		rp("rpc.GetTorrentWebseeds", 1, func(w *worker, e *entry) error { _, err := w.rc.GetTorrentWebseeds(e.id); return err }),
-		rp("rpc.GetTorrentFiles", 2, func(w *worker, e *entry) error { _, err := w.rc.GetTorrentFiles(e.id); return err }),
-		rp("rpc.GetTorrentFileStats", 2, func(w *worker, e *entry) error { _, err := w.rc.GetTorrentFileStats(e.id); return err }),
-		rp("rpc.GetMagnet", 2, func(w *worker, e *entry) error { _, err := w.rc.GetMagnet(e.id); return err }),
-		rp("rpc.GetTorrent", 2, func(w *worker, e *entry) error { _, err := w.rc.GetTorrent(e.id); return err }),
-		rp("rpc.StartTorrent", 2, func(w *worker, e *entry) error { return w.rc.StartTorrent(e.id) }),
-		rp("rpc.StopTorrent", 1, func(w *worker, e *entry) error { return w.rc.StopTorrent(e.id) }),
-		rp("rpc.AnnounceTorrent", 1, func(w *worker, e *entry) error { return w.rc.AnnounceTorrent(e.id) }),
-		rp("rpc.VerifyTorrent", 1, func(w *worker, e *entry) error { return w.rc.VerifyTorrent(e.id) }),
+		rp("rpc.GetTorrentStats", 3, func(w *worker, e *entry) error { _, err := w.rc.GetTorrentStats(e.curID()); return err }),
+		rp("rpc.GetTorrentPeers", 2, func(w *worker, e *entry) error { _, err := w.rc.GetTorrentPeers(e.curID()); return err }),
+		rp("rpc.GetTorrentTrackers", 2, func(w *worker, e *entry) error { _, err := w.rc.GetTorrentTrackers(e.curID()); return err }),
+		rp("rpc.GetTorrentWebseeds", 1, func(w *worker, e *entry) error { _, err := w.rc.GetTorrentWebseeds(e.curID()); return err }),
+		rp("rpc.GetTorrentFiles", 2, func(w *worker, e *entry) error { _, err := w.rc.GetTorrentFiles(e.curID()); return err }),
+		rp("rpc.GetTorrentFileStats", 2, func(w *worker, e *entry) error { _, err := w.rc.GetTorrentFileStats(e.curID()); return err }),
+		rp("rpc.GetMagnet", 2, func(w *worker, e *entry) error { _, err := w.rc.GetMagnet(e.curID()); return err }),
+		rp("rpc.GetTorrent", 2, func(w *worker, e *entry) error { _, err := w.rc.GetTorrent(e.curID()); return err }),
+		rp("rpc.StartTorrent", 2, func(w *worker, e *entry) error { return w.rc.StartTorrent(e.curID()) }),
+		rp("rpc.StopTorrent", 1, func(w *worker, e *entry) error { return w.rc.StopTorrent(e.curID()) }),
+		rp("rpc.AnnounceTorrent", 1, func(w *worker, e *entry) error { return w.rc.AnnounceTorrent(e.curID()) }),
+		rp("rpc.VerifyTorrent", 1, func(w *worker, e *entry) error { return w.rc.VerifyTorrent(e.curID()) }),
 		rp("rpc.StartAllTorrents", 1, func(w *worker, e *entry) error { return w.rc.StartAllTorrents() }),
 		rp("rpc.StopAllTorrents", 1, func(w *worker, e *entry) error { return w.rc.StopAllTorrents() }),
-		rp("rpc.AddPeer", 2, func(w *worker, e *entry) error { return w.rc.AddPeer(e.id, e.seedAdr) }),
-		rp("rpc.AddTracker", 1, func(w *worker, e *entry) error { return w.rc.AddTracker(e.id, e.trk.URL()) }),
+		rp("rpc.AddPeer", 2, func(w *worker, e *entry) error { return w.rc.AddPeer(e.curID(), e.seedAdr) }),
+		rp("rpc.AddTracker", 1, func(w *worker, e *entry) error { return w.rc.AddTracker(e.curID(), e.trk.URL()) }),
 		rp("rpc.AddTorrent", 2, func(w *worker, e *entry) error {
-			_, err := w.rc.AddTorrent(bytes.NewReader(e.tor.Bytes), &rainrpc.AddTorrentOptions{ID: e.id})
+			id := e.newID()
+			_, err := w.rc.AddTorrent(bytes.NewReader(e.tor.Bytes), &rainrpc.AddTorrentOptions{ID: id})
 			if err == nil {
-				_ = w.rc.AddPeer(e.id, e.seedAdr)
+				e.cur.Store(&id)
+				_ = w.rc.AddPeer(id, e.seedAdr)
 			}
 			return err
 		}),
-		rp("rpc.AddURI", 1, func(w *worker, e *entry) error { _, err := w.rc.AddURI(e.magnet, &rainrpc.AddTorrentOptions{ID: e.id}); return err }),
-		rp("rpc.RemoveTorrent", 1, func(w *worker, e *entry) error { return w.rc.RemoveTorrent(e.id, true) }),
+		rp("rpc.AddURI", 1, func(w *worker, e *entry) error {
+			id := e.newID()
+			_, err := w.rc.AddURI(e.magnet, &rainrpc.AddTorrentOptions{ID: id})
+			if err == nil {
+				e.cur.Store(&id)
+			}
+			return err
+		}),
+		rp("rpc.RemoveTorrent", 1, func(w *worker, e *entry) error { return w.rc.RemoveTorrent(e.curID(), true) }),
 		rp("rpc.CleanDatabase", 1, func(w *worker, e *entry) error { return w.rc.CleanDatabase() }),
 		rp("rpc.ServerVersion", 1, func(w *worker, e *entry) error { _, err := w.rc.ServerVersion(); return err }),
 	)
@@ -417,11 +449,11 @@ func ops(mix string) []op {
 		o = append(o, op{"Torrent.Move", 25, func(w *worker) {
 			e := w.entry()
 			var t *torrent.Torrent
-			call(w.id, "Session.GetTorrent", func() error { t = w.s.GetTorrent(e.id); return nil })
+			call(w.id, "Session.GetTorrent", func() error { t = w.s.GetTorrent(e.curID()); return nil })
 			if t != nil {
 				call(w.id, "Torrent.Move", func() error { return t.Move("http://" + w.tgt) })
 			}
-		}}, rp("rpc.MoveTorrent", 10, func(w *worker, e *entry) error { return w.rc.MoveTorrent(e.id, "http://"+w.tgt) }))
+		}}, rp("rpc.MoveTorrent", 10, func(w *worker, e *entry) error { return w.rc.MoveTorrent(e.curID(), "http://"+w.tgt) }))
 	}
 	return o
 }
@@ -457,8 +489,10 @@ func stress(mix string, dur time.Duration, nworkers int, seed int64, skip string
 	for i := 0; i < 2; i++ {
 		e := pool[i]
 		call(nworkers, "Session.AddTorrent", func() error {
-			t, err := s.AddTorrent(bytes.NewReader(e.tor.Bytes), &torrent.AddTorrentOptions{ID: e.id})
+			id := e.newID()
+			t, err := s.AddTorrent(bytes.NewReader(e.tor.Bytes), &torrent.AddTorrentOptions{ID: id})
 			if err == nil {
+				e.cur.Store(&id)
 				_ = t.AddPeer(e.seedAdr)
 			}
 			return err
